@@ -193,9 +193,8 @@ func (c *Conn) call(ctx context.Context, msg *message.UpstreamCall) (*message.Up
 	c.upstreamCallAckMu.Unlock()
 
 	err := c.send(ctx, func(ctx context.Context) error {
-		c.wireConnMu.Lock()
-		defer c.wireConnMu.Unlock()
-		return c.wireConn.SendUpstreamCall(ctx, msg)
+		wireConn, _ := c.currentWireConn()
+		return wireConn.SendUpstreamCall(ctx, msg)
 	})
 	if err != nil {
 		return nil, err
